@@ -68,6 +68,9 @@ UNMOD_SPEC = ["type", "id", "created", "created_by_ref"]
 OFFSETS = [-1000000, -1, 0, 1, 999, 1000, 1001, 1000000]
 MARKS = ["marking-definition--613f2e26-407d-48c7-9eca-b8e91df99dc9", "marking-definition--34098fce-860f-48ae-8e50-ebd3cc5e41da",
          "marking-definition--f88d31f6-486f-44da-b317-01333bde0b82", "marking-definition--5e57c739-391a-4eb3-b6be-7d15ca92d5ed"]
+import uuid as _uuid
+MARKS = MARKS + ["marking-definition--%s" % _uuid.uuid5(_uuid.NAMESPACE_URL, "verif-marking-%d" % i) for i in range(70)]
+MARK_SIZES = [1, 1, 1, 2, 2, 2, 3, 9, 10, 11, 64, 65]        # both sides of plausible bounds
 FINDING_NAIVE = "C05-naive-datetime-cannot-be-versioned"
 FINDING_MAPPING = "C05-non-dict-mapping-mixed-precision-rules"
 
@@ -227,7 +230,7 @@ def legal_changes(rng, ver, ty, carrier, state_keys):
     if "external_references" in slots:
         menu += [("external_references", J([{"source_name": "src", "external_id": "e-1"}])), ("external_references", J(None))]
     if "object_marking_refs" in slots:
-        menu += [("object_marking_refs", J(rng.sample(MARKS, rng.choice([1, 2]))))]
+        menu += [("object_marking_refs", J(rng.sample(MARKS, rng.choice(MARK_SIZES))))]
     if "revoked" in slots:
         menu += [("revoked", J(False))]
     menu += [("x_verif_note", J(rng.choice(["note", 7, ["a", "b"], {"k": 1}]))), ("x_verif_note", J(None))]
@@ -298,6 +301,8 @@ def gen_chain(rng, case, ty, pred, max_ops, marking_ok=True):
         if r < 0.50:
             ch, ac = legal_changes(rng, ver, ty, carrier, None)
             op = {"op": "new", "changes": ch, "now": now, "allow_custom": ac, "legal": True}
+            if rng.random() < 0.3:
+                op["api"] = rng.choice(["function", "toplevel"])      # another public entry point to the same code
             for k, v in ch:
                 if k == "object_marking_refs":
                     marks = set(v["j"] or [])
@@ -338,7 +343,7 @@ def gen_chain(rng, case, ty, pred, max_ops, marking_ok=True):
             op = {"op": kind, "now": now, "legal": True}
             if kind != "clear_mark":
                 pool = sorted(marks) if (kind == "remove_mark" and marks and rng.random() < 0.8) else MARKS
-                op["ms"] = rng.sample(pool, rng.randint(1, min(2, len(pool))))
+                op["ms"] = rng.sample(pool, min(len(pool), rng.choice(MARK_SIZES)))
             if kind == "remove_mark":
                 op["legal"] = set(op["ms"]) <= marks or not marks
                 if marks and set(op["ms"]) <= marks and not revoked:
@@ -362,6 +367,8 @@ def gen_chain(rng, case, ty, pred, max_ops, marking_ok=True):
                 marks = set(op["ms"])
         elif r < 0.84:
             op = {"op": "revoke", "now": now, "legal": True}
+            if rng.random() < 0.3:
+                op["api"] = rng.choice(["function", "toplevel"])
             if not revoked:
                 pred.advance(now)
                 revoked = True
@@ -572,6 +579,19 @@ def special_cases(run, n):
                            {"op": "new", "changes": [["modified", J(None)]], "now": b, "allow_custom": None, "legal": None},
                            {"op": "new", "changes": [["modified", rng.choice([J(7), J("x"), DT(b + 5000, None)])]], "now": b, "allow_custom": None, "legal": None}]
             out.append(case)
+        elif k == 8 and i % 2 == 0:     # `revoked` present with a falsy or a truthy non-boolean value (dict carriers)
+            val = rng.choice([J(0), J(""), J([]), J(None), J({}), J(0.0), J(1), J("yes"), J([0]), J(-1)])
+            ver = rng.choice(["2.0", "2.1"])
+            init = [["type", J("identity")], ["id", J("identity--" + g.uuid(4))], ["created", ts_value(rng, t0, False)],
+                    ["modified", ts_value(rng, t0 + 1000, False)], ["name", J("n")], ["revoked", val]]
+            if ver == "2.1":
+                init.insert(1, ["spec_version", J("2.1")])
+            case = {"carrier": "dict", "ver": ver, "init": init, "ty": "identity", "kind": "revoked-variant", "allow_custom": False}
+            lg = not bool(val["j"])
+            case["ops"] = [{"op": "new", "changes": [["name", J("m")]], "now": t0 + 2000 + rng.choice(OFFSETS), "allow_custom": None, "legal": lg},
+                           {"op": "revoke", "now": t0 + DAY, "legal": lg},
+                           {"op": "revoke", "now": t0 + 2 * DAY, "legal": False}]
+            out.append(case)
         else:           # dict without type
             init = [["id", J("identity--" + g.uuid(4))], ["created", ts_value(rng, t0, False)], ["modified", ts_value(rng, t0, False)],
                     ["revoked", J(False)]]
@@ -682,7 +702,16 @@ def time_of_text(text):
 
 
 def oracle_case(case, res):
-    """Violations of the property on one chain."""
+    """Violations of the property on one chain; the oracle never stops the check: a chain it cannot judge is
+    reported as a replayable case."""
+    try:
+        return oracle_case_(case, res)
+    except Exception as e:  # noqa: BLE001
+        return [Violation("the oracle could not judge this chain (%s: %s)" % (type(e).__name__, e),
+                          {"case": {k: v for k, v in case.items() if k != "_state_before"}, "check": "oracle error"}, None)]
+
+
+def oracle_case_(case, res):
     out = []
     ver, carrier = case["ver"], case["carrier"]
     if "badcase" in res or ver not in ("2.0", "2.1") or carrier == "nonmapping":
@@ -763,7 +792,7 @@ def oracle_case(case, res):
                 curm = (sget(state, "object_marking_refs") or {"j": []})["j"] or []
                 if curm and not set(op["ms"]) <= set(curm):
                     must_refuse = True        # MarkingNotFoundError: nothing to remove
-            if op.get("legal") is True and not must_refuse and case["kind"] in ("versionable", "unregistered", "sco-dict"):
+            if op.get("legal") is True and not must_refuse and case["kind"] in ("versionable", "unregistered", "sco-dict", "revoked-variant"):
                 f = FINDING_NAIVE if (naive_in and st["exc"] == "TypeError") else None
                 if carrier == "mapping" and supplied is not None and st["exc"] == "InvalidValueError":
                     f = FINDING_MAPPING       # same cause: the supplied time is compared after millisecond truncation
